@@ -449,4 +449,8 @@ def run(ctx):
     # parser configuration that a reader switches while it runs (Paragraph.parse_setext in Quote.read) is restored
     # on every path, early returns and exceptions included: otherwise the blocks after it parse differently
     c11.rule_override(ctx, rep, RULE='R-OVERRIDE-RESTORED')
+    # line numbers are start_line plus the cursor: B's numbers are shifted by the lines before it only if the entry
+    # hands every line of the input to the cursor, blank lines at either end included (shared with C15)
+    from . import c15
+    c15.rule_normal_form(ctx, rep)
     rep.assume('block tokens follow the start/read protocol driven by block_tokenizer.tokenize_block')
